@@ -161,19 +161,43 @@ fn compile_qq(t: &Sx, depth: usize) -> Result<Qq, SyntaxError> {
             Box::new(Qq::Const(V::Nil)),
         )),
         Sx::List(items) => {
+            // (a . ,b) is read as (a unquote b): the last two elements are the tail form
+            let n = items.len();
+            if n >= 3 && (items[n - 2].is_sym("unquote") || items[n - 2].is_sym("quasiquote")) {
+                let tail = Sx::List(items[n - 2..].to_vec());
+                if items[..n - 2].iter().any(|i| i.is_sym("unquote")) {
+                    return err("unquote in an unspecified position", t);
+                }
+                return Ok(Qq::List(
+                    items[..n - 2].iter().map(|i| compile_qq(i, depth)).collect::<Result<Vec<_>, _>>()?,
+                    Box::new(compile_qq(&tail, depth)?),
+                ));
+            }
             if items.iter().any(|i| i.is_sym("unquote")) {
-                // (a . ,b) spelled as (a unquote b): outside the generated language
-                return err("unquote in tail position", t);
+                // unquote elsewhere in a template: R7RS leaves the behaviour open
+                return err("unquote in an unspecified position", t);
             }
             Ok(Qq::List(
                 items.iter().map(|i| compile_qq(i, depth)).collect::<Result<Vec<_>, _>>()?,
                 Box::new(Qq::Const(V::Nil)),
             ))
         }
-        Sx::Dotted(items, tail) => Ok(Qq::List(
-            items.iter().map(|i| compile_qq(i, depth)).collect::<Result<Vec<_>, _>>()?,
-            Box::new(compile_qq(tail, depth)?),
-        )),
+        Sx::Dotted(items, tail) => match &**tail {
+            Sx::List(t) => {
+                let mut all = items.clone();
+                all.extend(t.iter().cloned());
+                compile_qq(&Sx::List(all), depth)
+            }
+            Sx::Dotted(t, tt) => {
+                let mut all = items.clone();
+                all.extend(t.iter().cloned());
+                compile_qq(&Sx::Dotted(all, tt.clone()), depth)
+            }
+            _ => Ok(Qq::List(
+                items.iter().map(|i| compile_qq(i, depth)).collect::<Result<Vec<_>, _>>()?,
+                Box::new(compile_qq(tail, depth)?),
+            )),
+        },
         Sx::Vector(items) => Ok(Qq::Vector(items.iter().map(|i| compile_qq(i, depth)).collect::<Result<Vec<_>, _>>()?)),
         atom => Ok(Qq::Const(V::from_datum(atom, true))),
     }
